@@ -180,6 +180,7 @@ def run_property(mod, tier: str, seed: int, t0: float, only_part=None) -> int:
 
     # 2. generated search
     total = driver.ShardResult()
+    hyp_evals = 0
     part_summ = []
     exhaustive_parts = []
     all_parts = mod.parts(tier)
@@ -231,15 +232,17 @@ def run_property(mod, tier: str, seed: int, t0: float, only_part=None) -> int:
                 f"{res.evals + res.invalid}; first: "
                 + json.dumps(res.invalid_samples[:1], default=str)[:1500])
         total.merge(res)
+        if isinstance(part, driver.HypPart):
+            hyp_evals += res.evals
 
-    # label coverage demanded by the property's quantifier
+    # label coverage demanded by the property's quantifier (relative to the generated cases)
     req = getattr(mod, "REQUIRED_LABELS", {})
     if not only_part and not violations:  # failing cases record no labels
         for lb, frac in req.items():
             have = total.labels.get(lb, 0)
-            if have < max(1, frac * total.evals) and not total.budget_exhausted:
+            if have < max(1, frac * hyp_evals) and not total.budget_exhausted:
                 harness_problems.append(
-                    f"input class {lb!r} under-generated: {have} of {total.evals}")
+                    f"input class {lb!r} under-generated: {have} of {hyp_evals}")
 
     wall = time.time() - t0
     ev = {
